@@ -34,6 +34,11 @@ def alterations():
     out += [{"name": f"type{t:x}_len{n}", "hs": {"type": t, "len": n}} for t in (0x3, 0x6) for n in (0, 30, 46, 62, 78)]
     out += [{"name": "wrong_key", "hs": {"wrong_key": True}}, {"name": "error", "hs": {"error": True}},
             {"name": "silence", "hs": {"drop": True}}]
+    for last in ({"error": True}, {"raw": "8370004020" + "01" + "ab" * 66}, {"wrong_key": True}, {"flip": 5}):
+        # silence, silence, then a rejection - all inside one authenticate()
+        nm = sorted(last)[0]
+        out.append({"name": f"lost_lost_{nm}", "hs_list": [{"drop": True}, {"drop": True}, dict(last)], "hs": dict(last)})
+        out.append({"name": f"lost_{nm}", "hs_list": [{"drop": True}, dict(last), dict(last)], "hs": dict(last)})
     for lat in (0.001, 0.5, 1.9):
         out.append({"name": f"reset_instead_of_reply_{lat}", "hs": {"drop": True, "close": True, "rst": True, "lat": lat}})
         out.append({"name": f"fin_instead_of_reply_{lat}", "hs": {"drop": True, "close": True, "lat": lat}})
